@@ -28,7 +28,8 @@ try:
         if os.path.isdir(V + "/build/" + sub):
             subprocess.run(["cp", "-r", V + "/build/" + sub, S + "/verif/build/" + sub])
     ct = S + "/verif/harness/Cargo.toml"
-    open(ct, "w").write(open(ct).read().replace("/repo/", repo + "/"))
+    txt = open(ct).read().replace("/repo/", repo + "/")
+    open(ct, "w").write(txt)
     for c in checks:
         t0 = time.time()
         p = subprocess.run(["./check", c, "--tier", "quick"], cwd=S + "/verif", env=dict(os.environ, VERIF_REPO=repo),
@@ -39,7 +40,8 @@ try:
         if m and os.path.exists(m.group(1)):
             r = json.load(open(m.group(1)))
             detail = {"kind": r.get("kind"), "signature": r.get("signature"), "what": (r.get("what") or "")[:300],
-                      "no_longer_checks": [x.get("what") for x in r.get("no_longer_checks", r.get("broken_obligations", []))][:5]}
+                      "no_longer_checks": [x.get("what") for x in r.get("no_longer_checks", r.get("broken_obligations", []))][:5],
+                      "first_detail": str([x.get("detail") or x.get("errors") or x.get("first") for x in r.get("no_longer_checks", r.get("broken_obligations", []))][:1])[:1500]}
         summ = [l for l in p.stderr.splitlines() if l.startswith("[%s]" % c)][-1:]
         res["checks"][c] = {"exit": p.returncode, "lines": [re.sub(r"replay=\S+", "replay=<path in the scratch copy>", l) for l in lines],
                             "summary": summ[0] if summ else "", "detail": detail, "wall_s": round(time.time() - t0)}
